@@ -221,22 +221,67 @@ def date_gate(P, chk):
         return
     b, bb, t = sites[0]
     recv, arg = t["args"]
-    ok_recv = q.all_roots(b, recv, lambda r: r.kind == "capture" and r.name == "query" and r.fields == ("date_range",))
-    ok_arg = q.all_roots(b, arg, lambda r: r.kind == "capture" and r.name == "txn" and r.fields == ("date",))
+    in_closure = b.is_closure
+
+    def is_query_range(r):
+        return (r.kind == "capture" and r.name == "query" and r.fields == ("date_range",)) or q.is_param(r, "query", ("date_range",))
+
+    def txn_elements(body, op):
+        """sites of the Iterator::next calls over self.transactions whose element `op` reads .date from; None if other"""
+        out = set()
+        for r in prov(body, op):
+            if r.kind == "call" and str(r.name).endswith("::next") and r.fields[-1:] == ("date",) and r.site is not None:
+                ch = q.chains(body, body.term(r.site)["args"][0])
+                if ch and all(q.is_param(x, "self", ("transactions",)) for cn, x in ch):
+                    out.add(r.site)
+                    continue
+            return None
+        return out
+    ok_recv = q.all_roots(b, recv, is_query_range)
+    if in_closure:
+        ok_arg = q.all_roots(b, arg, lambda r: r.kind == "capture" and r.name == "txn" and r.fields == ("date",))
+    else:
+        ok_arg = bool(txn_elements(b, arg))
     chk.require(ok_recv and ok_arg, R_GATE, "Ledger::balance|gate-operands", b.loc(bb),
                 "the date gate tests %s against %s instead of query.date_range.contains(txn.date)"
                 % (mir.prov_strs(b, arg), mir.prov_strs(b, recv)), "query.date_range.contains(txn.date)")
-    # Some only when contains is true, None only when false
     good = True
     detail = ""
-    for rbb, v, rv in q.ok_err_assignments(b):
-        labs = [lab for cn, lab, ct in q.guard_calls(b, rbb) if cn == Q + "::DateRange::contains"]
-        if v == "Some" and labs != [True]:
+    if in_closure:
+        # the gate lives in a filter_map closure: Some only when contains is true, None only when false
+        for rbb, v, rv in q.ok_err_assignments(b):
+            labs = [lab for cn, lab, ct in q.guard_calls(b, rbb) if cn == Q + "::DateRange::contains"]
+            if v == "Some" and labs != [True]:
+                good = False
+                detail = "a posting is kept without contains() == true"
+            if v == "None" and labs != [False]:
+                good = False
+                detail = "a posting is dropped without contains() == false"
+    else:
+        # the gate lives in the loop itself: a posting is added only under contains() == true, for the transaction the
+        # posting belongs to, and the false edge does nothing but go on to the next transaction
+        txs = txn_elements(b, arg) or set()
+        lps = [blks for h, blks in b.loops().items() if txs & set(blks)]
+        adds0 = [(x, y) for x, y in mir.call_sites(b, ["okane_core::report::balance::Balance::add_amount"])
+                 if any(x in blks for blks in lps)]
+        if not adds0:
             good = False
-            detail = "a posting is kept without contains() == true"
-        if v == "None" and labs != [False]:
-            good = False
-            detail = "a posting is dropped without contains() == false"
+            detail = "no add_amount in the loop over the gated transactions"
+        for abb, at in adds0:
+            labs = [lab for cn, lab, ct in q.guard_calls(b, abb) if cn == Q + "::DateRange::contains"]
+            if labs != [True]:
+                good = False
+                detail = "a posting is added without contains() == true"
+            # the posting comes from that transaction's own postings
+            own = False
+            for r in prov(b, at["args"][1]):
+                if r.kind == "call" and str(r.name).endswith("::next") and r.site is not None:
+                    ch = q.chains(b, b.term(r.site)["args"][0], stop=lambda x: x.kind == "call" and x.site in txs)
+                    if ch and all(x.kind == "call" and x.site in txs and "postings" in x.fields for cn, x in ch):
+                        own = True
+            if not own:
+                good = False
+                detail = detail or "the posting added does not come from the gated transaction's postings"
     chk.require(good, R_GATE, "Ledger::balance|gate-decides-keep/drop", b.loc(bb), detail,
                 "posting kept iff contains(txn.date)")
     # 2. no other filtering adaptor on the posting stream
@@ -259,9 +304,11 @@ def date_gate(P, chk):
     for h, blks in lp.items():
         for x in blks:
             tx = bal.term(x)
-            if tx["k"] == "call" and callee_def(tx) == "std::iter::Iterator::next" and tx["args"] and \
-                    "FlatMap" in bal.local_ty(tx["args"][0]["place"]["l"]):
-                recompute_loops.append(blks)
+            if tx["k"] == "call" and callee_def(tx) == "std::iter::Iterator::next" and tx["args"]:
+                ch = q.chains(bal, tx["args"][0])
+                if "FlatMap" in bal.local_ty(tx["args"][0]["place"]["l"]) or \
+                        (ch and all(q.is_param(x_, "self", ("transactions",)) for cn, x_ in ch)):
+                    recompute_loops.append(blks)
     in_recompute = [(bb2, t2) for bb2, t2 in adds if any(bb2 in blks for blks in recompute_loops)]
     ok3 = bool(in_recompute)
     why = ""
